@@ -256,6 +256,16 @@ func path(v ssa.Value, depth int, seen map[ssa.Value]bool) string {
 			defer delete(seen, v)
 			return path(st[0].Val, depth+1, seen)
 		}
+		// array literal / varargs backing array: render the stored elements
+		if elems := ArrayElems(x); len(elems) > 0 {
+			seen[v] = true
+			defer delete(seen, v)
+			var parts []string
+			for _, e := range elems {
+				parts = append(parts, path(e, depth+1, seen))
+			}
+			return "{" + strings.Join(parts, ", ") + "}"
+		}
 		if x.Comment != "" {
 			return "local:" + x.Comment
 		}
@@ -756,4 +766,85 @@ func ConstInt(v ssa.Value) (int64, bool) {
 	}
 	n, exact := constant.Int64Val(k)
 	return n, exact
+}
+
+// ArrayElems returns the values stored into the elements of a local array allocation
+// (composite literals and varargs slices), in index order when the indices are constant.
+func ArrayElems(a *ssa.Alloc) []ssa.Value {
+	if a.Referrers() == nil {
+		return nil
+	}
+	pt, ok := a.Type().Underlying().(*types.Pointer)
+	if !ok {
+		return nil
+	}
+	if _, ok := pt.Elem().Underlying().(*types.Array); !ok {
+		return nil
+	}
+	type ent struct {
+		idx int64
+		v   ssa.Value
+	}
+	var ents []ent
+	for _, r := range *a.Referrers() {
+		ia, ok := r.(*ssa.IndexAddr)
+		if !ok || ia.Referrers() == nil {
+			continue
+		}
+		idx, _ := ConstInt(ia.Index)
+		for _, rr := range *ia.Referrers() {
+			if st, ok := rr.(*ssa.Store); ok && st.Addr == ia {
+				ents = append(ents, ent{idx, st.Val})
+			}
+		}
+	}
+	sort.SliceStable(ents, func(i, j int) bool { return ents[i].idx < ents[j].idx })
+	var out []ssa.Value
+	for _, e := range ents {
+		out = append(out, e.v)
+	}
+	return out
+}
+
+// CondsBetween lists the branch conditions of blocks that lie on some path from instruction
+// `from` to instruction `to` (blocks reachable from `from` that can reach `to`), including from's own block.
+func CondsBetween(fn *ssa.Function, from, to ssa.Instruction) []Cond {
+	fwd := map[*ssa.BasicBlock]bool{}
+	var walk func(b *ssa.BasicBlock)
+	walk = func(b *ssa.BasicBlock) {
+		if fwd[b] {
+			return
+		}
+		fwd[b] = true
+		if b == to.Block() {
+			return
+		}
+		for _, s := range b.Succs {
+			walk(s)
+		}
+	}
+	walk(from.Block())
+	bwd := map[*ssa.BasicBlock]bool{}
+	var back func(b *ssa.BasicBlock)
+	back = func(b *ssa.BasicBlock) {
+		if bwd[b] {
+			return
+		}
+		bwd[b] = true
+		if b == from.Block() {
+			return
+		}
+		for _, p := range b.Preds {
+			back(p)
+		}
+	}
+	back(to.Block())
+	var out []Cond
+	for _, c := range Conds(fn) {
+		b := c.If.Block()
+		if fwd[b] && bwd[b] && b != to.Block() {
+			out = append(out, c)
+		}
+	}
+	return out
 }
